@@ -61,13 +61,14 @@ class err_iter(object):
                 node = self.cur_node.get_parent()
                 if node is None:
                     raise IterOutOfBounds
+                if node.id == 'ROOT':
+                    # stay on this interchange, another one may follow it
+                    raise IterOutOfBounds
                 if not node.is_closed():
                     raise IterOutOfBounds
                 if self.cur_node in self.visit_stack:
                     del self.visit_stack[-1]
                 self.cur_node = node
-                if node.id == 'ROOT':
-                    raise IterOutOfBounds
                 #    raise IterDone
 
     def get_cur_node(self):
